@@ -662,3 +662,96 @@ Section SpecKeys.
           exists e. split; [apply in_or_app; right; exact He|exact Hk].
   Qed.
 End SpecKeys.
+
+(* ------------------------------------------------------------ Part 8: assembly *)
+
+Definition e_rows (cfg : balance_cfg) (ac : account * commodity) : list account :=
+  if cfg_where cfg (fst ac) (snd ac) then
+    match shorten (bc_mapping cfg) (remap (bc_remap cfg) (fst ac)) with ShAcc a' => prefixes_from [] a' | _ => [] end
+  else [].
+
+Lemma q_rows_balance cfg part x : q_rows (balance_query cfg part) x = e_rows cfg (key_of x).
+Proof. reflexivity. Qed.
+
+Lemma mapped_rows cfg es row :
+  (exists e, In e (mapped_entries cfg es) /\ (let '(_, a, _, _) := e in In row (prefixes_from [] a))) <->
+  (exists e, In e es /\ In row (e_rows cfg (ekey e))).
+Proof.
+  unfold mapped_entries. split.
+  - intros (e & He & Hr). apply in_concat in He. destruct He as (l & Hl & He). apply in_map_iff in Hl.
+    destruct Hl as ([[[col a] c] v] & <- & Hin). exists (col, a, c, v). split; [exact Hin|].
+    unfold e_rows, ekey. cbn [fst snd]. destruct (cfg_where cfg a c); [|destruct He].
+    destruct (shorten (bc_mapping cfg) (remap (bc_remap cfg) a)) as [a'| |]; try destruct He as [<-|[]]; try destruct He. exact Hr.
+  - intros ([[[col a] c] v] & Hin & Hr). unfold e_rows, ekey in Hr. cbn [fst snd] in Hr.
+    destruct (cfg_where cfg a c) eqn:Ew; [|destruct Hr].
+    destruct (shorten (bc_mapping cfg) (remap (bc_remap cfg) a)) as [a'| |] eqn:Es; try destruct Hr.
+    exists (col, a', c, v). split; [|exact Hr]. apply in_concat. eexists. split; [apply in_map_iff; exists (col, a, c, v); split; [reflexivity|exact Hin]|].
+    cbn beta iota. rewrite Ew, Es. left. reflexivity.
+Qed.
+
+Lemma column_some : forall ps s e d, tiles s e ps -> (d <= e)%Z -> column_for ps d <> None.
+Proof.
+  induction ps as [|p ps IH]; intros s e d Ht Hd; [destruct Ht|]. cbn [tiles] in Ht. destruct Ht as (_ & _ & Hrest).
+  cbn [column_for]. destruct (d <=? p_end p)%Z eqn:E; [discriminate|].
+  destruct ps as [|p2 ps]; [lia|]. eapply IH; eauto.
+Qed.
+
+Lemma user_entries_keys sp ps posts ac :
+  (forall d, in_span sp d = true -> column_for ps d <> None) ->
+  ((exists e, In e (user_entries sp ps posts) /\ ekey e = ac) <->
+   (exists dp, In dp posts /\ in_span sp (fst dp) = true /\ key_of dp = ac)).
+Proof.
+  intros Hcol. unfold user_entries. split.
+  - intros (e & He & Hk). apply in_concat in He. destruct He as (l & Hl & He). apply in_map_iff in Hl.
+    destruct Hl as ([d p] & <- & Hin). exists (d, p). split; [exact Hin|]. cbn [fst]. unfold in_span.
+    destruct ((p_start sp <=? d)%Z && (d <=? p_end sp)%Z); [|destruct He]. split; [reflexivity|].
+    destruct (column_for ps d); [|destruct He]. destruct He as [<-|[]]. exact Hk.
+  - intros ([d p] & Hin & Hsp & Hk). cbn [fst] in Hsp. pose proof (Hcol d Hsp) as Hc.
+    destruct (column_for ps d) as [col|] eqn:Ec; [|congruence].
+    exists (col, p_acc p, p_com p, p_qty p). split; [|exact Hk].
+    apply in_concat. eexists. split; [apply in_map_iff; exists (d, p); split; [reflexivity|exact Hin]|].
+    cbn beta iota. unfold in_span in Hsp. rewrite Hsp, Ec. left. reflexivity.
+Qed.
+
+Lemma filt_in_iff sp ds dp : days_dated ds ->
+  (In dp (days_postings (map (filt sp) ds)) <-> In dp (days_postings ds) /\ in_span sp (fst dp) = true).
+Proof.
+  intros Hd. unfold days_postings. induction Hd as [|d ds Hx _ IH]; cbn [map concat]; [cbn; tauto|].
+  rewrite !in_app_iff, IH. unfold filt. rewrite period_contains_in_span.
+  destruct (in_span sp (d_date d)) eqn:E.
+  - split; [|tauto]. intros [H|H]; [|tauto]. split; [left; exact H|]. rewrite (day_postings_date d dp Hx H). exact E.
+  - unfold day_postings at 1. cbn [set_txns d_txns map concat In]. split; [tauto|].
+    intros [[H|H] Hs]; [|tauto]. rewrite (day_postings_date d dp Hx H) in Hs. congruence.
+Qed.
+
+Lemma closing_entries_nokeys posts : forall ps prev, closing_entries posts [] prev ps = [].
+Proof. induction ps as [|p ps IH]; intros prev; cbn [closing_entries map concat app]; [reflexivity|apply IH]. Qed.
+
+(* model and specification agree on what a key owes to a period start *)
+Lemma owed_specV part dl k S :
+  part_facts part -> (p_start (span part) <= p_end (span part))%Z ->
+  postings_syntactic dl -> account_ok (fst k) = true -> closable (fst k) = true -> In S (start_dates part) ->
+  owed (start_dates part) (Some S) (ind k)
+       ([] ++ days_postings (map (filt (span part)) (b_days (builder_touch (builder_of dl) (start_dates part)))))
+  == specV (flat_postings dl) (p_start (span part)) (map p_start (periods part)) S k.
+Proof.
+  intros [Hss Htiles] Hle Hsyn Hk Hck HS. destruct (Htiles Hle) as [Ht Hfs]. destruct (tiles_facts _ _ _ Ht) as [_ Hb].
+  cbn [app]. unfold owed. rewrite (filt_sum _ _ _ (builder_touch_dated _ _ (builder_of_dated dl))).
+  assert (Hperm : Permutation (days_postings (b_days (builder_touch (builder_of dl) (start_dates part)))) (flat_postings dl)).
+  { rewrite builder_touch_perm. apply builder_of_perm. }
+  rewrite (qsum_perm _ _ _ Hperm). unfold specV. apply qsum_ext. intros [d p] Hin. cbn [fst snd].
+  unfold start_dates. unfold ind, key_of. cbn [fst snd].
+  destruct (keq (p_acc p, p_com p) k) eqn:Ek.
+  2: { rewrite andb_false_r. destruct (in_span (span part) d); [|reflexivity].
+       destruct (closable_dp (d, p) && oz_eqb (nxt (map p_start (periods part)) d) (Some S)); ring. }
+  assert (Ekk : (p_acc p, p_com p) = k) by (apply keq_eq; [apply (Hsyn d p Hin)|exact Hk|exact Ek]).
+  assert (Hcl : closable_dp (d, p) = true) by (unfold closable_dp; cbn [snd]; rewrite <- Ekk in Hck; exact Hck).
+  rewrite Hcl, andb_true_r. cbn [andb].
+  destruct (oz_eqb (nxt (map p_start (periods part)) d) (Some S)) eqn:En.
+  - apply oz_eqb_eq in En. apply nxt_gt in En. destruct En as [Hlt _].
+    unfold start_dates in HS. apply in_map_iff in HS. destruct HS as (p0 & <- & Hp0).
+    rewrite Forall_forall in Hb. specialize (Hb _ Hp0).
+    unfold in_span. rewrite andb_true_r. replace (d <=? p_end (span part))%Z with true by lia. rewrite andb_true_r.
+    destruct (p_start (span part) <=? d)%Z; ring.
+  - rewrite andb_false_r. destruct (in_span (span part) d); reflexivity.
+Qed.
